@@ -424,6 +424,8 @@ class Explorer:
                 s_int.ret = ('exc', 'simpy.Interrupt')
                 res.append((RAISE, s_int))
             self.on_yield(s)
+            if isinstance(val_node, (ast.Name, ast.Attribute)):
+                s.triggered.add(v)          # a process resumes from `yield ev` only after ev was triggered
             self.do_assume(s, node, 'after resume')
             res.append((('yielded', e.line, next(_uid)), s))
         return res
